@@ -202,5 +202,10 @@ func init() {
 		ruleH(c)
 		ruleX5(c)
 		ruleX6(c, "Queue", "Deque")
+		ruleG1(c, all, 0)
+		ruleG2(c)
+		ruleP1(c, all, 0)
+		ruleP2(c, all, 0)
+		ruleP3(c)
 	}
 }
